@@ -16,7 +16,7 @@ BUDGET = {'quick': 420, 'thorough': 3000}
 SOURCES = ['src/dtaidistance/dtw_ndim.py', 'src/dtaidistance/dtw.py', 'src/dtaidistance/innerdistance.py', 'src/dtaidistance/ed.py', 'src/dtaidistance/util.py',
            'src/DTAIDistanceC/DTAIDistanceC/dd_dtw.c', 'src/DTAIDistanceC/DTAIDistanceC/dd_ed.c']
 FUNCTIONS = ['dtw_ndim.distance, warping_paths, warping_path, distance_matrix, ub_euclidean', 'innerdistance.SquaredEuclideanNdim, EuclideanNdim',
-             'util.SeriesContainer (list of 2-D arrays, 3-D array)', 'dd_dtw.c dtw_distance_ndim(_euclidean), dtw_warping_paths_ndim(_euclidean), dtw_warping_path_ndim, ub_euclidean_ndim*',
+             'util.SeriesContainer (list of 2-D arrays, 3-D array)', 'dd_dtw.c dtw_distance_ndim(_euclidean), dtw_warping_paths_ndim(_euclidean), ub_euclidean_ndim*',
              'dd_ed.c euclidean_distance_ndim*']
 BOUNDS = {'quick': {'d': '1..2 (C kernels also 3 at 2x2)', 'r,c': '1..3', 'window': 'None,1,2', 'penalty': 'None|symbolic', 'psi': 'None, 1', 'pruning / max_dist': 'r*c <= 4'},
           'thorough': {'d': '1..4 (C: 1..3)', 'r,c': '1..3', 'window': 'all', 'penalty': 'None|symbolic', 'psi': 'None, 1', 'pruning / max_dist': 'r*c <= 9'}}
